@@ -6,6 +6,7 @@ from analysis.facts import strip_generics
 from analysis.guards import dominating_conditions, conditional_defs, has_cond
 from analysis.pathinterp import enumerate_paths, path_calls, path_value
 from . import C05
+from . import C06 as _C06
 
 EXPLANATION = (
     "String semantics over all (pattern, URL) pairs is a value-level question and is NOT decided. Decided "
@@ -62,6 +63,8 @@ def check(run):
         run.guard("C02.3.regex-translation", cfg, lambda: rule_translation(run, F, cfg))
         run.guard("C02.4.label-boundary", cfg, lambda: rule_label_boundary(run, F, cfg))
         run.guard("C05.4.disjunction", cfg, lambda: C05.rule_disjunction(run, F, cfg))
+        b = run.borrow("C06", why="a regex rebuilt after a discard must be the regex compiled the first time")
+        run.guard("C02.via.C06.2.pure-cache", cfg, lambda: _C06.rule_pure_cache(b, F, cfg))
 
 
 def rule_dispatch(run, F, cfg):
